@@ -4,6 +4,7 @@ package main
 
 import (
 	"fmt"
+	"runtime/debug"
 	"strings"
 	"time"
 	"unicode/utf8"
@@ -107,7 +108,11 @@ func (in *instance) parseOne(line string) *base.LogRecord {
 
 func show(s string) string {
 	if len(s) > 90 {
-		return fmt.Sprintf("%q...(%d bytes)", s[:90], len(s))
+		cut := 90
+		for cut > 80 && !utf8.RuneStart(s[cut]) {
+			cut--
+		}
+		return fmt.Sprintf("%q...(%d bytes)", s[:cut], len(s))
 	}
 	return fmt.Sprintf("%q", s)
 }
@@ -140,6 +145,9 @@ func checkRecord(e *env, line string, ref refRecord, rec *base.LogRecord, msgLim
 	}
 	for i, name := range tokenFields {
 		if got := get(name); got != ref.tokens[i] {
+			if len(got) > 0 && strings.Trim(got, "#") == "" {
+				return "alias:record-shares-input-buffer", fmt.Sprintf("field %s turned into %s after the caller reused its input buffer; line %s", name, show(got), show(line))
+			}
 			return "faithful:" + name, fmt.Sprintf("field %s is %s, the line has %s; line %s", name, show(got), show(ref.tokens[i]), show(line))
 		}
 	}
@@ -234,6 +242,8 @@ func tokenMenu(pos int) []string {
 		"\t\x01" + c + "\n[\"]\\",           // 7 control characters, brackets, quotes, backslash
 		strings.Repeat(c+"0123456789", 100), // 8 1100 characters: the line is longer than the scaled record limit
 		"é",                                 // 9 a single 2-byte character
+		"a=b,c;d:e/f" + c,                   // 10 punctuation
+		"-" + c,                             // 11 starts with the NIL character
 	}
 }
 
@@ -351,7 +361,7 @@ func enumerate(ctx *seq.Ctx) {
 	// ---- G3: header tokens: every combination of the menu at the six positions
 	nmenu := 8
 	if ctx.Thorough() {
-		nmenu = 10
+		nmenu = 12
 	}
 	ctx.Group(fmt.Sprintf("tokens/%d^6", nmenu))
 	var menus [6][]string
@@ -597,12 +607,16 @@ func checkHistory(variant int) (string, string) {
 
 func main() {
 	logger.SetLogLevel(logger.ErrorLevel)
+	// every case builds a fresh parser with its own metric registry: with the default setting the tiny live heap makes
+	// the collector run thousands of times per second
+	debug.SetGCPercent(800)
+	debug.SetMemoryLimit(400 << 20)
 	seq.Main(&seq.Config{
 		Property: "C09",
 		Level:    "exploration",
 		Rule: "bounded-exhaustive enumeration of lines through syslogparser.NewParser(...).Parse with limits scaled to message 64 / record 320 (thorough also 67/323 and 5/261, both tiers also the shipped 1 MiB): " +
-			"ALL PRI 0..191 x {default, log4j, custom} level mappings x 2 schemas x 2 token sets; a menu of 36 out-of-range / odd first tokens; every combination of an 8 (quick) / 10 (thorough) entry menu at the six header tokens " +
-			"(NIL, typical, 1 char, UTF-8, 200 chars, PRI look-alike, invalid UTF-8, control characters; thorough adds 1100 chars and a single 2-byte character); lines of 20..44 bytes with and without the MSG part; message bodies of every length 0..L+12 (ASCII) and L-6..L+9 for " +
+			"ALL PRI 0..191 x {default, log4j, custom} level mappings x 2 schemas x 2 token sets; a menu of 36 out-of-range / odd first tokens; every combination of an 8 (quick) / 12 (thorough) entry menu at the six header tokens " +
+			"(NIL, typical, 1 char, UTF-8, 200 chars, PRI look-alike, invalid UTF-8, control characters; thorough adds 1100 chars, a single 2-byte character, punctuation, a token starting with the NIL character); lines of 20..44 bytes with and without the MSG part; message bodies of every length 0..L+12 (ASCII) and L-6..L+9 for " +
 			"2-/3-/4-byte characters and 7 kinds of invalid bytes at every alignment (0-4 leading and 0/1/3 trailing ASCII bytes), each with the total line length at the shortest header and at record limit -2..+2 and +300; " +
 			"6 histories of 196 mixed lines through one parser; oracle: reference parser (split on the first seven spaces), own facility/level tables, truncation rules, counters read after UpdateMetrics; " +
 			"non-trivial = the reference classifies the line as well-formed, MSG-less or PRI-too-large (i.e. it gets past the cheap rejections)",
